@@ -55,14 +55,23 @@ class Schema:
             if not mn.startswith("pandapower.network_schema.") or ".tools" in mn:
                 continue
             m = self.repo.module(mn)
-            for name, val in m.assigns.items():
-                if not name.endswith("_schema") or not isinstance(val, ast.Call):
-                    continue
+            pairs = []
+            for st in m.tree.body:      # X_schema = [Y_schema =] pa.DataFrameSchema(<dict literal | module-level name>, ...)
+                if isinstance(st, ast.Assign) and isinstance(st.value, ast.Call):
+                    for tg in st.targets:
+                        if isinstance(tg, ast.Name) and tg.id.endswith("_schema"):
+                            pairs.append((tg.id, st.value))
+            for name, val in pairs:
                 table = name[: -len("_schema")]
-                if not val.args or not isinstance(val.args[0], ast.Dict):
+                if not val.args:
                     continue
+                dnode = val.args[0]
+                if isinstance(dnode, ast.Name) and isinstance(m.assigns.get(dnode.id), ast.Dict):
+                    dnode = m.assigns[dnode.id]
+                if not isinstance(dnode, ast.Dict):
+                    raise AnalysisError(f"{m.relpath}: columns of {name} are not a dict literal or a module-level dict")
                 cols = {}
-                for k, v in zip(val.args[0].keys, val.args[0].values):
+                for k, v in zip(dnode.keys, dnode.values):
                     if not (isinstance(k, ast.Constant) and isinstance(k.value, str)):
                         continue
                     sc = SchemaCol(table, k.value)
@@ -82,6 +91,8 @@ class Schema:
                                     sc.isin = list(f)
                     cols[k.value] = sc
                 self.columns[table] = cols
+        if len([t for t in self.columns if not t.startswith("res_")]) < 28:
+            raise AnalysisError("network_schema: fewer than 28 input-table schemas read")
 
     # ------------------------------------------------------------------
     def element_tables(self) -> List[str]:
